@@ -204,7 +204,9 @@ func lcs(a, b []string) [][2]int {
 // the names the contracts know them by.
 func alignClosures(fn *ssa.Function, notes *[]string) {
 	if len(fn.AnonFuncs) == 0 {
-		return
+		if h := nameHints[shortName(fn)]; h == nil || len(h.Closures) == 0 {
+			return
+		}
 	}
 	defer func() {
 		for _, a := range fn.AnonFuncs {
@@ -256,6 +258,56 @@ func alignClosures(fn *ssa.Function, notes *[]string) {
 			newTo[ni[pr[1]]] = oi[pr[0]]
 		}
 	}
+	// A literal that is gone may have been turned into a named function or method
+	// (its body moved, the call site kept: `defer func(){...}()` -> `defer w.cleanup()`).
+	// If exactly one function of the module without hints (i.e. new since the
+	// contracts were written) with the same signature is used in fn the way the
+	// literal was (deferred, started with go, or called), the literal's contract
+	// is bound to it.
+	for i, oc := range old.Closures {
+		if _, matched := oldTo[i]; matched {
+			continue
+		}
+		var cands []*ssa.Function
+		seenC := map[*ssa.Function]bool{}
+		for _, b := range fn.Blocks {
+			for _, in := range b.Instrs {
+				ci, ok := in.(ssa.CallInstruction)
+				if !ok {
+					continue
+				}
+				kind := "call"
+				switch in.(type) {
+				case *ssa.Defer:
+					kind = "defer"
+				case *ssa.Go:
+					kind = "go"
+				}
+				if oc.Use != kind {
+					continue
+				}
+				g := ci.Common().StaticCallee()
+				if g == nil || g.Parent() != nil || g.Pkg == nil || fn.Pkg == nil || g.Pkg != fn.Pkg || seenC[g] {
+					continue
+				}
+				if _, known := nameHints[shortName(g)]; known {
+					continue
+				}
+				if _, taken := nameOverride[g]; taken {
+					continue
+				}
+				if sigString(g) != oc.Sig {
+					continue
+				}
+				seenC[g] = true
+				cands = append(cands, g)
+			}
+		}
+		if len(cands) == 1 {
+			nameOverride[cands[0]] = oc.Name
+			*notes = append(*notes, fmt.Sprintf("function %s is used where the function literal %s was: the literal's contract is bound to it", cands[0].String(), oc.Name))
+		}
+	}
 	for j, a := range fn.AnonFuncs {
 		natural := shortName(a)
 		if i, ok := newTo[j]; ok {
@@ -277,7 +329,7 @@ func alignAllClosures(prog *ssa.Program, fns map[*ssa.Function]bool) {
 	}
 	var tops []*ssa.Function
 	for fn := range fns {
-		if fn.Parent() == nil && len(fn.AnonFuncs) > 0 && fn.Pkg != nil && strings.HasPrefix(fn.Pkg.Pkg.Path(), modPath) {
+		if fn.Parent() == nil && fn.Pkg != nil && strings.HasPrefix(fn.Pkg.Pkg.Path(), modPath) {
 			tops = append(tops, fn)
 		}
 	}
